@@ -331,6 +331,10 @@ def HState.setConfig (s : HState) (k : Nat) : HState :=
 def HState.unsetConfig (s : HState) (k : Nat) : HState :=
   { s with config := s.config.filter (· != k) }
 
+/-- `Dataset::add_bases` with one new base path; registering the same one again is refused -/
+def HState.addBase (s : HState) (k : Nat) : HState :=
+  if s.basePaths.contains k then s else { s with basePaths := s.basePaths ++ [k] }
+
 /-- the manifest of a table state, flags as the commit path writes them -/
 def HState.manifest (s : HState) : Manifest × Bool :=
   applyFeatureFlags
